@@ -1,39 +1,199 @@
-"""Repository-specific tables: which rules decide which clauses of which property."""
+"""Repository-specific tables: which rules decide which clauses of which property.
+
+A rule entry is either a rule id (all findings of the rule count) or (rule id, filter) where the filter
+restricts the rule's findings to the source files the property is anchored in.
+"""
+
+
+def infile(*suffixes):
+    def f(finding):
+        return bool(finding.file) and finding.file.endswith(tuple(suffixes))
+    f.__doc__ = "findings in " + ", ".join(suffixes)
+    return f
+
+
+def infn(*parts):
+    def f(finding):
+        return any(p in finding.fn for p in parts)
+    return f
+
+
+ALG = ("algorithms/mod.rs", "algorithms/myers.rs", "algorithms/lcs.rs", "algorithms/patience.rs", "algorithms/utils.rs",
+       "algorithms/hook.rs")
+PIPE = ("algorithms/compact.rs", "algorithms/replace.rs", "algorithms/capture.rs", "common.rs", "types.rs")
+A_ALL = ["A1", "A2", "A3", "A4", "A5", "A7"]
+
+
+def a_rules(files, rules=A_ALL):
+    return [(r, infile(*files)) for r in rules]
+
 
 PROPERTIES = {
     "C01": {
         "level": "other",
-        "rules": ["A1", "A2", "A3", "A4", "A5", "A6", "A7"],
-        "explanation": "static: coordinates",
+        "rules": a_rules(ALG) + ["E1"],
+        "explanation": "Decided for all inputs: (1) every index handed to a diff hook by the three algorithms, every index "
+                       "into a caller-ranged sequence and every range passed between the algorithm functions is an absolute "
+                       "position of the right side and coordinate frame (A1-A5, A7: sort inference over the type-checked HIR "
+                       "of algorithms/*.rs); (2) every emitted length is positive on every path (E1: predicate dataflow over "
+                       "MIR).  These are necessary conditions of 'index-exact' and 'nothing empty'; ordering, gap-freeness "
+                       "as a statement about values, element-wise equality and panic-freedom are NOT examined.",
+        "undecided": "ordering/gap-freeness of the callback stream as values, equality of equal segments, panic-freedom",
     },
-    "C09": {
+    "C02": {
         "level": "other",
-        "rules": ["E1"],
-        "explanation": "static: nothing empty emitted",
+        "rules": ["F1", "F5", "B5"] + a_rules(PIPE),
+        "explanation": "Decided: the capture pipeline is Compact(Replace(Capture)) and returns that hook's ops (F1); Compact "
+                       "replays every buffered op once, in order, then finishes, Replace flushes in order (B5); every op "
+                       "constructed or forwarded in compact/replace/capture/common/types takes old-side fields from old-"
+                       "side values and new-side fields from new-side values (A1-A5, A7); the shift/grow/shrink helpers "
+                       "move both indices together (F5).  Slide amounts and ratio arithmetic are NOT examined.",
+        "undecided": "that slide amounts are right (value reasoning over the 12 compaction arms), ratio clauses",
     },
-    "C07": {
+    "C03": {
         "level": "other",
-        "rules": ["C1", "C2", "C3", "C4", "C5"],
-        "explanation": "static: deadline plumbing",
+        "rules": [(r, infn("lcs::make_table", "lcs::diff_deadline")) for r in ("A2", "A3", "A5")],
+        "explanation": "Decided (one necessary condition only): the LCS table is built by reading the sequences through "
+                       "positions derived from the requested ranges, and the walk reads the table with the same key slot "
+                       "order it was written with (A2/A3/A5 restricted to lcs::make_table and lcs::diff_deadline).  "
+                       "Minimality itself, tie-breaks and the Myers middle-snake overlap test are NOT examined.",
+        "undecided": "optimality, tie-breaking, the middle-snake overlap test",
     },
-    "C08": {
+    "C04": {
         "level": "other",
-        "rules": ["B1", "B2", "B3", "B4", "B5"],
-        "explanation": "static: hook protocol",
-    },
-    "C11": {
-        "level": "other",
-        "rules": ["G1"],
-        "explanation": "static: order-changing operations on op lists",
-    },
-    "C20": {
-        "level": "other",
-        "rules": ["D2", "D3", "D4"],
-        "explanation": "static: determinism effect rules",
+        "rules": ["F4", "F2"] + a_rules(("iter.rs", "text/mod.rs"), ["A2", "A3", "A4", "A5"]),
+        "explanation": "Decided: every Change constructor carries exactly the indices its tag allows and takes its value from "
+                       "the proper side, per DiffTag arm (F4); both texts are tokenized by the same tokenizer in the right "
+                       "slots and TextDiffConfig::diff stores the very token vectors it diffed (F2); indices in iter.rs / "
+                       "text/mod.rs are positions of the right side (A2-A5).  Losslessness of the tokenizers (C06) and "
+                       "consecutive numbering are NOT examined.",
+        "undecided": "tokenizer losslessness, consecutive numbering of indices",
     },
     "C05": {
         "level": "other",
-        "rules": ["D1", "G2"],
-        "explanation": "static: byte-exact writer path",
+        "rules": ["D1", "F8", "G2"] + a_rules(("udiff.rs",), ["A1", "A3", "A4", "A5"]),
+        "explanation": "Decided: no lossy decoding is reachable from the byte writers and each line is written with "
+                       "write_all(as_bytes(value)) (D1: call graph incl. fmt::Display edges); Display and to_writer emit the "
+                       "same (guard, template) sequence incl. header-once and missing-newline logic (F8); hunk header extents "
+                       "pair old with old and new with new (A4); the header reads carried indices, which is sound only if no "
+                       "unrepaired order-changing site exists (G2 -> known finding).  Counts vs body, applicability, context "
+                       "sizes are NOT examined.",
+        "undecided": "header counts vs hunk body, strict applicability, context radius arithmetic",
     },
+    "C06": {
+        "level": "other",
+        "rules": ["F7", ("A6", infile("text/abstraction.rs"))],
+        "explanation": "Decided (necessary conditions only): the str and [u8] tokenizers use the same break characters and "
+                       "character-class predicates (F7), and token boundaries are byte offsets advanced by byte lengths, never "
+                       "by counts (A6 in abstraction.rs).  Losslessness, non-emptiness and token shapes are NOT examined.",
+        "undecided": "losslessness, non-emptiness, token shapes (index bookkeeping over runtime offsets)",
+    },
+    "C07": {
+        "level": "other",
+        "rules": ["C1", "C2", "C3", "C4", "C5", "B3", "E1"],
+        "explanation": "Decided: every deadline carrier passes its own deadline to every deadline-taking callee and struct "
+                       "(C1); the builder stores what it is given and into_instant/deadline_exceeded/duration_to_deadline use "
+                       "their argument (C2); the two super-linear loop nests are probed at depth 1 with an exit edge (C3); after "
+                       "expiry or a gave-up result no comparison is reachable (C4); nothing but the probe reads a deadline "
+                       "(C5: a never-expiring deadline cannot change the result); finish happens exactly once on the expiry "
+                       "paths too (B3) and fallback emissions are non-empty (E1).  The constant in 'small multiple of N+M' and "
+                       "validity of the fallback script as values are NOT examined.",
+        "undecided": "the work constant after expiry; value-level validity of the fallback script",
+    },
+    "C08": {
+        "level": "proof",
+        "rules": ["B1", "B2", "B3", "B4", "B5"],
+        "explanation": "All clauses of the stated protocol are decided over the crate's code: error discipline at every hook-"
+                       "result site (B1), nothing after an error (B2), trace summaries e* f for every driver x adapter stack by "
+                       "composition through the resolved DiffHook impls (B3), forwarding tables (B4), buffer typestate of "
+                       "Replace/Compact (B5).  Proof is relative to termination/panic-freedom and an opaque user hook.",
+        "assumptions": ["one hook object per hook type per function (type-directed composition)"],
+    },
+    "C09": {
+        "level": "other",
+        "rules": ["E1", "B5", "F1"],
+        "explanation": "Decided: no algorithm emits an empty op (E1); Replace merges runs and emits delete/replace before "
+                       "insert, flushing in order (B5); both adapters are in the capture pipeline, Compact outside Replace (F1)."
+                       "  Alternation after compaction and 'insertion sits at its latest position' are NOT examined.",
+        "undecided": "alternation after compaction, latest-position clause (value reasoning)",
+    },
+    "C10": {
+        "level": "other",
+        "rules": ["F5", "B5", ("B4", infile("algorithms/compact.rs", "algorithms/capture.rs"))] +
+                 a_rules(("algorithms/compact.rs", "algorithms/replace.rs", "types.rs")),
+        "explanation": "Decided (structural parts only): no slot or side mix-up in any compaction arm or in Replace (A1-A5, A7), "
+                       "helpers move start and length consistently (F5), Replace/Compact typestate (B5), Compact buffers exactly "
+                       "what it receives (B4 push rows).  Preservation of delete/insert counts is arithmetic and NOT examined.",
+        "undecided": "that numbers of deleted/inserted items are preserved",
+    },
+    "C11": {
+        "level": "other",
+        "rules": ["G1", "F5", "A4", ("A1", infile("types.rs", "algorithms/compact.rs", "algorithms/replace.rs"))],
+        "explanation": "Decided: every order-changing operation on a list of ops is followed by a rewrite of the affected "
+                       "elements (G1 -> two known unrepaired swap sites); shift/grow/shrink move both indices together (F5); "
+                       "every DiffOp constructed anywhere takes old_index from an old-side and new_index from a new-side "
+                       "position, carried fields included (A4).",
+        "undecided": "exactness of the carried index as a number",
+    },
+    "C13": {
+        "level": "other",
+        "rules": ["F4", "F3"] + a_rules(("iter.rs", "types.rs"), ["A1", "A2", "A4", "A5"]),
+        "explanation": "Decided: per-variant tables of ChangesIter::next, as_tag_tuple, apply_to_hook and both iter_slices "
+                       "(F3/F4: tags, Some/None indices, value side, Replace = deletes then inserts, twins identical); old "
+                       "cursor indexes old, new cursor indexes new, apply_to_hook passes fields in slot order (A1/A2/A4).  "
+                       "'One change per item' counts are NOT examined.",
+        "undecided": "counts of yielded changes",
+    },
+    "C14": {
+        "level": "other",
+        "rules": ["F2", "F6"] + a_rules(("text/mod.rs", "algorithms/utils.rs"), ["A2", "A3", "A4", "A5"]),
+        "explanation": "Decided: tokenizer wiring, stored algorithm and newline flag, both size branches use self.algorithm "
+                       "(F2); the integer-mapping branch pairs old_lookup with old_range and new_lookup with new_range, offsets "
+                       "come from the respective range starts (A3/A4); the two IdentifyDistinct loops are identical up to "
+                       "old<->new with a shared map and counter (F6).  That equal ids mean equal items is hash-map semantics "
+                       "and NOT examined.",
+        "undecided": "id assignment equals item equality",
+    },
+    "C15": {
+        "level": "other",
+        "rules": a_rules(("algorithms/patience.rs", "algorithms/utils.rs")),
+        "explanation": "Decided (one clause): anchors are translated from unique-list coordinates to original coordinates "
+                       "only through original_index(), per side and per frame (A1-A5, A7 with frames U vs F0 in patience.rs "
+                       "and unique()).  Maximality and the uniqueness filter are NOT examined.",
+        "undecided": "maximality of the anchor set, the uniqueness filter",
+    },
+    "C16": {
+        "level": "other",
+        "rules": ["F9", ("F4", infile("text/inline.rs")), ("C1", infile("text/inline.rs", "text/mod.rs"))] +
+                 a_rules(("text/inline.rs",), ["A2", "A3", "A4", "A5", "A6"]),
+        "explanation": "Decided: tags/indices of assembled InlineChanges (F4, A4), side consistency of lookup/push_values use "
+                       "(A3), byte-unit discipline of MultiLookup (A6), deadline plumbing of the inline diff (C1), emphasis only "
+                       "in Delete/Insert/Replace arms and never on a newline segment (F9).  Concatenation equals the line is "
+                       "NOT examined.",
+        "undecided": "segments concatenate to the line",
+    },
+    "C17": {
+        "level": "other",
+        "rules": ["F3", "F2"] + a_rules(("utils.rs",), ["A3", "A4", "A5", "A6"]) + [("A6", infile("src/utils.rs"))],
+        "explanation": "Decided: source.slice receives byte offsets accumulated from token byte lengths (A6); the old remapper "
+                       "is built from old text + old tokens, new from new (A3/A4); iter_slices twin agreement (F3); helper "
+                       "wiring (F2).  Reconstruction and 'never panics' are NOT examined.",
+        "undecided": "reconstruction of the texts, absence of panics",
+    },
+    "C20": {
+        "level": "other",
+        "rules": ["D2", "D3", "D4", "F7", "C5"],
+        "explanation": "Decided: the only order-sensitive hash iteration is sorted before use (D2); no clock/thread/env/"
+                       "random/address dependence outside the deadline probe (D3, C5); items are only compared with ==/!= and "
+                       "hashed, never ordered or formatted (D4: relabelling invariance); str and [u8] tokenizers classify "
+                       "alike (F7).  Equality of str vs bytes ops depends on C06 and is NOT examined.",
+        "undecided": "str vs [u8] ops equality beyond the classification tables",
+    },
+}
+
+NOT_APPLICABLE = {
+    "C12": "grouping: every clause is arithmetic over run lengths and the radius n (saturating_sub, > 2n); no clause is a "
+           "shape-of-code fact, so no sound static rule in reach decides it",
+    "C18": "get_close_matches: soundness of two numeric upper bounds and a float ranking; quantifies over values",
+    "C19": "work bound: a complexity bound over runtime quantities; no sound static cost analysis in reach for the D loop",
 }
